@@ -384,52 +384,47 @@ fn c05_error_replies_to_lookups_yield_nothing() {
 // =============================================================================================
 // replies to a put: acknowledgements and errors reach the put's tallies exactly once
 // =============================================================================================
-static mut SUCCESS_CALLS: u32 = 0;
-static mut ERROR_CALLS: u32 = 0;
-static mut ERROR_CODE: i32 = 0;
-fn stub_success(_q: &mut PutQuery) {
-    unsafe { SUCCESS_CALLS += 1 }
-}
-fn stub_error(_q: &mut PutQuery, e: crate::common::ErrorSpecific) {
-    unsafe {
-        ERROR_CALLS += 1;
-        ERROR_CODE = e.code;
-    }
-}
 fn stub_put_inflight(_q: &PutQuery, tid: u32) -> bool {
     tid == TID
 }
 
+/// (PutQuery::success / error run for real here: success carries a Kani contract and cannot be
+/// stubbed; their effect is read back through the put's counters)
 #[kani::proof]
-#[kani::unwind(22)]
+#[kani::unwind(5)]
 #[kani::stub(std::time::Instant::now, clock::mock_now)]
 #[kani::stub(getrandom::fill, fill_const)]
-#[kani::stub(PutQuery::success, stub_success)]
-#[kani::stub(PutQuery::error, stub_error)]
 #[kani::stub(PutQuery::inflight, stub_put_inflight)]
 #[kani::stub(ClosestNodes::add, stub_closest_add)]
 #[kani::stub(RoutingTable::add, stub_rt_add)]
 fn c08_a_reply_to_a_store_request_is_counted_exactly_once() {
+    use crate::core::put_query::verif_kani::{stored_at_of, tallies, tally_of};
     let mut c = core(true);
+    c.put_queries = HashMap::new();
+    c.iterative_queries = HashMap::new();
     let target = id1(0x10);
     c.put_queries.insert(target, PutQuery::new(crate::common::PutRequestSpecific::PutImmutable(crate::common::PutImmutableRequestArguments { target, v: Box::new([1]) }), None));
     let tid: u32 = kani::any();
     let code: i32 = kani::any();
     let kind: u8 = kani::any();
-    kani::assume(kind < 3);
-    let mt = match kind {
-        0 => MessageType::Response(ResponseSpecific::Ping(PingResponseArguments { responder_id: id1(RESPONDER) })),
-        1 => MessageType::Error(crate::common::ErrorSpecific { code, description: String::new() }),
-        _ => MessageType::Response(ResponseSpecific::FindNode(FindNodeResponseArguments { responder_id: id1(RESPONDER), nodes: Box::new([]) })),
+    kani::assume(kind < 2);
+    let mt = if kind == 0 {
+        MessageType::Response(ResponseSpecific::Ping(PingResponseArguments { responder_id: id1(RESPONDER) }))
+    } else {
+        MessageType::Error(crate::common::ErrorSpecific { code, description: String::new() })
     };
     let ro: bool = kani::any();
     let r = c.handle_response(SocketAddrV4::new(1u32.into(), 1), msg(tid, ro, None, mt));
     assert!(r.is_none());
     let ours = tid == TID && !ro;
-    assert!(unsafe { SUCCESS_CALLS } == if ours && kind == 0 { 1 } else { 0 }, "C08: an acknowledgement of one of the put's store requests is counted exactly once; nothing else counts as one");
-    assert!(unsafe { ERROR_CALLS } == if ours && kind == 1 { 1 } else { 0 }, "C08: an error reply is tallied exactly once, with its code");
+    let (acks, errs, this) = match c.put_queries.a.as_ref() {
+        Some(e) => (stored_at_of(&e.1), tallies(&e.1), tally_of(&e.1, code)),
+        None => (99, 99, 99),
+    };
+    assert!(acks == if ours && kind == 0 { 1 } else { 0 }, "C08: an acknowledgement of one of the put's store requests is counted exactly once; nothing else counts as one");
+    assert!(errs == if ours && kind == 1 { 1 } else { 0 }, "C08: an error reply is tallied exactly once");
     if ours && kind == 1 {
-        assert!(unsafe { ERROR_CODE } == code);
+        assert!(this == 1, "C08: ... under its own code");
     }
     kani::cover!(ours && kind == 0);
     kani::cover!(ours && kind == 1 && code == 301);
